@@ -25,8 +25,16 @@ EXPLANATION = (
     "agree with each other and with the header packed by mutable_schema._header, whose initial layout is fixed header + "
     "four blank lease slots + extra-lease count 0 with the extra-lease offset equal to DATA_OFFSET; (7) test vectors are compared "
     "(==) against _read_share_data of the share, and against b'' for a missing share; any failing vector makes "
-    "the verdict False.  Undecided: byte-level results of seek/read/write, integer arithmetic, crash windows "
-    "between the writes.")
+    "the verdict False, and an assertion over the operator in testv_compare lets b'eq' through; (8) an assert / precondition "
+    "over offset (write) or offset / length (read) alone lets every value >= 0 through; no decision in _write_share_data uses "
+    "the extra-lease offset read before _change_container_size moved it; DataTooLargeError is raised (in _write_share_data, "
+    "_change_container_size, writev, _evaluate_write_vectors) only on an edge where a positive sum of request quantities "
+    "exceeds or reaches MAX_SIZE; an os.rmdir inside the apply loop of _evaluate_write_vectors is guarded by listdir of the "
+    "same directory being empty (or sits in a try with a handler), so that clean-up cannot abort the remaining vectors.  "
+    "Undecided: byte-level results of seek/read/write, integer arithmetic, crash windows between the writes; the exact "
+    "MAX_SIZE boundary (> vs >=) and the presence of the size limit at all (not part of the byte-array behaviour; the "
+    "pre-validation is C24.8); whether the bucket directory is removed after the last share is deleted and which shares "
+    "are reported as remaining for lease renewal; flushes; open() modes.")
 TECHNIQUE = "static analysis: CFG path rules over linear normal forms, seek/write site table, call reachability"
 
 MSF = "storage.mutable:MutableShareFile"
@@ -117,6 +125,120 @@ def check_assumes(r, fn, cfg, fnm, expr, what):
         f_ = assume_fact(fnm, n)
         if f_ and f_[1] in (want, neg):
             r.require(f_ == ("<=", want), fn, fn.loc(n.ast), "%s: the assertion %s rejects %s" % (short(fn), src(fn, n.ast), what))
+
+
+def cmp_poly(nz, e, pol=True):
+    """Comparison `e` (negated when not pol) as (op, Poly) meaning ``0 op poly``, op in < <= == != ; else None."""
+    while isinstance(e, ast.UnaryOp) and isinstance(e.op, ast.Not):
+        e, pol = e.operand, not pol
+    if not isinstance(e, ast.Compare) or len(e.ops) != 1 or type(e.ops[0]) not in _NEGOP:
+        return None
+    op = type(e.ops[0])
+    if not pol:
+        op = _NEGOP[op]
+    l, r_ = e.left, e.comparators[0]
+    if op in (ast.Gt, ast.GtE):
+        op = {ast.Gt: ast.Lt, ast.GtE: ast.LtE}[op]
+        l, r_ = r_, l
+    try:
+        return (_SYM[op], nz.poly(r_) - nz.poly(l))
+    except Exception:
+        return None
+
+
+def _loads(e):
+    return {x.id for x in ast.walk(e) if isinstance(x, ast.Name) and isinstance(x.ctx, ast.Load)}
+
+
+def check_param_assumes(r, fn, cfg, fnm, params, what):
+    """An assert / precondition over one caller-supplied parameter alone (linear, reached without an earlier
+    decision about that parameter) must let every value >= 0 through: offset 0, length 0 and every larger
+    value are legal arguments of the byte-array operations."""
+    for n in cfg.nodes:
+        if n.kind != "test" or not n.assume:
+            continue
+        f_ = cmp_poly(fnm.at(n), n.ast)
+        if f_ is None:
+            continue
+        op, d = f_
+        at = d.atoms()
+        if len(at) != 1 or any(len(k) > 1 for k in d.t):
+            continue
+        (p_,) = tuple(at)
+        if p_ not in params or set(fnm.rd.get(n.id, {}).get(p_, ())) != {-1}:
+            continue
+        decided = lambda m: m.kind == "test" and not m.assume and p_ in _loads(m.ast)
+        if not find_path_avoiding(cfg, lambda x: x is n, gate_node=decided, skip_exc_edges=True):
+            continue
+        a, c = d.t.get((p_,), 0), d.t.get((), 0)
+        if op == "<=":
+            ok = a >= 0 and c >= 0
+        elif op == "<":
+            ok = a >= 0 and c > 0
+        elif op == "!=":
+            x = -c / a
+            ok = x < 0 or x.denominator != 1
+        else:
+            ok = False
+        r.require(ok, fn, fn.loc(n.ast), "%s: the assertion %s rejects %s" % (short(fn), src(fn, n.ast), what % p_))
+
+
+def stale_after(cfg, fnm, reader, changer):
+    """Decisions (tests, assertions) that use a local read through self.<reader>(..) before a call of
+    self.<changer>(..) lying on the path between that read and the decision: [(test node, local, witness)]."""
+    changed = {n.id for n in cfg.nodes if self_call(n, changer)}
+    out = []
+    for n in cfg.nodes:
+        if n.kind != "test":
+            continue
+        for v in sorted(_loads(n.ast)):
+            for d in sorted(fnm.rd.get(n.id, {}).get(v, ())):
+                if d < 0:
+                    continue
+                dn = cfg.nodes[d]
+                val = fnm._def_value(dn, v)
+                if not (isinstance(val, ast.Call) and call_name(val) == "self." + reader):
+                    continue
+
+                def transfer(a, lab, b, st, dn=dn, v=v):
+                    if lab == "exc" or (a is not dn and v in node_stores(a)):
+                        return None
+                    return st or a.id in changed
+                vis, par = explore(cfg, False, transfer, start=dn)
+                if (n.id, True) in vis:
+                    out.append((n, v, witness(cfg, par, (n.id, True))))
+    return out
+
+
+def accepts_eq(e, opname):
+    """Does the assertion `e` over the operator parameter pass for the operator b'eq'?  None = not decidable."""
+    pol = True
+    while isinstance(e, ast.UnaryOp) and isinstance(e.op, ast.Not):
+        e, pol = e.operand, not pol
+    if not isinstance(e, ast.Compare) or len(e.ops) != 1:
+        return None
+    l, c = e.left, e.comparators[0]
+    try:
+        if isinstance(l, ast.Name) and l.id == opname:
+            a, b = b"eq", ast.literal_eval(c)
+        elif isinstance(c, ast.Name) and c.id == opname:
+            a, b = ast.literal_eval(l), b"eq"
+        else:
+            return None
+        op = e.ops[0]
+        if isinstance(op, ast.Eq):
+            res = a == b
+        elif isinstance(op, ast.NotEq):
+            res = a != b
+        elif isinstance(op, ast.In):
+            res = a in b
+        elif isinstance(op, ast.NotIn):
+            res = a not in b
+        else:
+            return None
+    except (ValueError, TypeError, SyntaxError):
+        return None
+    return res if pol else not res
 
 
 def le_facts(expr: str):
@@ -366,6 +488,7 @@ def run(ctx: Context):
                 r.violation(fn, fn.loc(c), "data is not written at DATA_OFFSET + offset (path: %s)" % w.brief(), w)
         for (n, w) in find_path_avoiding(cfg, is_exit, gate_node=lambda n: n.id in dn):
             r.violation(fn, fn.loc(), "_write_share_data can return without writing the data (path: %s)" % w.brief(), w)
+        check_param_assumes(r, fn, cfg, fnm, {off}, "a write with a legal (zero or positive) %s")
 
     # -- 2. container growth, lease relocation --------------------------------
     with ctx.rule("C23.2", "R1/R2", "container growth precedes every data-region write; _change_container_size moves "
@@ -396,6 +519,10 @@ def run(ctx: Context):
                         "on the extra-lease block (path: %s)" % w.brief(), w)
         r.count(len(cfg.nodes))
         check_assumes(r, fn, cfg, fnm, "%s - self.DATA_OFFSET - (%s)" % (ELO, END), "a write that exactly fills the container")
+        for (n, v, w) in stale_after(cfg, fnm, "_read_extra_lease_offset", "_change_container_size"):
+            r.violation(fn, fn.loc(n.ast), "%s: %s decides on '%s', the extra-lease offset read before _change_container_size "
+                        "moved it: a growing write is judged against the old container (path: %s)" % (
+                            short(fn), src(fn, n.ast), v, w.brief()), w)
 
         cs = idx.func(MSF + "._change_container_size")
         f2, ncs = first_positional_params(cs)[:2]
@@ -501,6 +628,7 @@ def run(ctx: Context):
                 continue
             r.violation(fn, fn.loc(n.ast), "returns %s, not the bytes read from the share" % src(fn, n.ast.value))
         check_assumes(r, fn, cfg, fnm, "%s - %s - %s" % (DL, off, ln), "a read that ends exactly at the end of the data")
+        check_param_assumes(r, fn, cfg, fnm, {off, ln}, "a read with a legal (zero or positive) %s")
         rv = idx.func(MSF + ".readv")
         _pairs_loop(r, rv, first_positional_params(rv)[0], "_read_share_data", "read vector")
         # readv returns the list to which every clipped read was appended
@@ -619,6 +747,31 @@ def run(ctx: Context):
         r.site(fn, None, "unlink obligation (%d unlink call(s))" % len(un))
         for n in un:
             r.require(is_unlink(n), fn, fn.loc(n.ast), "unlink is applied to something other than %s" % SH)
+
+        # directory clean-up inside the apply loop must not be able to abort it: os.rmdir of a directory that still
+        # holds other shares raises OSError, and the remaining write vectors of the request are never applied
+        for n in cfg.nodes:
+            for c in calls_at(n, "rmdir"):
+                if not c.args or n.id not in body_of(head):
+                    continue
+                dirn = fnm.norm(n, c.args[0])
+                if any(l == "exc" and cfg.nodes[d].kind == "except" for (d, l) in cfg.succ[n.id]):
+                    continue        # a handler takes the failure
+
+                def is_empty(m, lab, dirn=dirn):
+                    f_ = fnm.edge_fact(m, lab)
+                    if not f_:
+                        return False
+                    for x in ast.walk(m.ast):
+                        if isinstance(x, ast.Call) and call_tail(x) == "listdir" and x.args and fnm.norm(m, x.args[0]) == dirn:
+                            ls = fnm.norm(m, x)
+                            if f_ == ("false", ls, None) or (f_[0] == "==" and {f_[1], f_[2]} in ({"[]", ls}, {"0", "len(%s)" % ls})):
+                                return True
+                    return False
+                for (t, w) in find_path_avoiding(cfg, lambda x: x is n, gate_edge=is_empty, kill=rebind):
+                    r.violation(fn, fn.loc(c), "_evaluate_write_vectors: %s is not guarded by the directory being empty: with "
+                                "other shares left it raises and the remaining write vectors are dropped (path: %s)" % (
+                                    src(fn, c), w.brief()), w)
 
         # typestate per iteration: mode (None / Z / NZ), unlinked, written, absent
         def transfer(n, lab, nxt, st):
@@ -831,6 +984,11 @@ def run(ctx: Context):
             and isinstance(rets[0].value.ops[0], ast.Eq) \
             and {attr_path(rets[0].value.left), attr_path(rets[0].value.comparators[0])} == {tps[0], tps[2]}
         r.require(ok, tc, tc.loc(), "testv_compare does not return (data == specimen)")
+        if len(tps) > 1:
+            for n in tc.cfg().nodes:
+                if n.kind == "test" and n.assume:
+                    r.require(accepts_eq(n.ast, tps[1]) is not False, tc, tc.loc(n.ast),
+                              "testv_compare: the assertion %s rejects the operator b'eq': every test vector fails" % src(tc, n.ast))
         for qual, empty in ((MSF + ".check_testv", False), ("storage.mutable:EmptyShare.check_testv", True)):
             fn = idx.func(qual)
             tv = first_positional_params(fn)[0]
@@ -859,6 +1017,32 @@ def run(ctx: Context):
                     r.require(okd, fn, fn.loc(c), "test vector is compared against %s, not the share's current data at "
                               "(offset, length)" % src(fn, d))
             verdict_monitor(r, fn, is_cmp, "test vector", need_done=False)
+
+    # -- 8. size refusals ------------------------------------------------------------
+    with ctx.rule("C23.8", "R1", "a write is refused with DataTooLargeError only on an edge where a sum of request "
+                  "quantities exceeds (or reaches) MAX_SIZE", expected=1) as r:
+        for qual in (MSF + "._write_share_data", MSF + "._change_container_size", MSF + ".writev",
+                     SRV + "._evaluate_write_vectors"):
+            fn = idx.func(qual)
+            cfg = fn.cfg()
+            fnm = FlowNorm(fn)
+
+            def too_big(m, lab, fnm=fnm):
+                if m.kind != "test" or not isinstance(lab, tuple) or m.assume:
+                    return False
+                f_ = cmp_poly(fnm.at(m), m.ast, lab[0] == "T")
+                if not f_ or f_[0] not in ("<", "<="):
+                    return False
+                d = f_[1]
+                mx = [k for k in d.t if len(k) == 1 and (k[0] == "MAX_SIZE" or k[0].endswith(".MAX_SIZE"))]
+                return len(mx) == 1 and d.t[mx[0]] == -1 and any(k not in ((), mx[0]) for k in d.t) \
+                    and all(v > 0 for k, v in d.t.items() if k not in ((), mx[0]))
+            for n in cfg.find(raises("DataTooLargeError")):
+                r.site(fn, n.ast, "size refusal")
+                for (t, w) in find_path_avoiding(cfg, lambda x: x is n, gate_edge=too_big):
+                    r.violation(fn, fn.loc(n.ast), "%s refuses a write as too large without having found its end above "
+                                "MAX_SIZE: writes of legal size fail (path: %s)" % (short(fn), w.brief()), w)
+            r.count(len(cfg.nodes))
 
 
 # --------------------------------------------------------------- more helpers
